@@ -5,7 +5,7 @@ run of the real keepers / msg servers / proposal handlers / block handlers again
 against a Coq spec checker evaluated on the real observations."""
 import json, os
 
-FILES = ["Base/Prelude.v", "Base/Dec.v", "Model/Monetary.v", "Model/C13Check.v", "Gen/MintBurn.v", "Proofs/Monetary.v"]
+FILES = ["Base/Prelude.v", "Base/Dec.v", "Model/Monetary.v", "Model/C13Check.v", "Gen/MintBurn.v", "Proofs/Monetary.v", "Proofs/MonetarySound.v"]
 U64 = 1 << 64
 YEAR = 31556952
 
